@@ -172,14 +172,32 @@ def _issue_single(st: Stack, c: gen.LogicalCall, notation: str, hand_id: Any) ->
     return _outcome_of(via_send)
 
 
-def _issue_batch(st: Stack, calls: List[gen.LogicalCall], notation: str, hand_ids: List[Any]) -> Tuple[Any, ...]:
+BATCH_BUILDS = ['ctor', 'lenient', 'append', 'extend', 'lenient_extend']
+
+
+def _issue_batch(st: Stack, calls: List[gen.LogicalCall], notation: str, hand_ids: List[Any],
+                 build: str = 'ctor') -> Tuple[Any, ...]:
     """Returns ('tuple', value-or-None) | ('error', e) | ('raise', e) | ('responses', BatchResponse|None, requests)"""
     cl = st.client
     b = cl.batch
     if notation == 'send':
         reqs = [pjrpc.Request(c.method, list(c.args) or dict(c.kwargs) or None, None if c.notification else i)
                 for c, i in zip(calls, hand_ids)]
-        breq = pjrpc.BatchRequest(*reqs)
+        # the ways a caller can put a batch together by hand (the ids are unique, so the strict flag changes nothing)
+        if build == 'ctor':
+            breq = pjrpc.BatchRequest(*reqs)
+        elif build == 'lenient':
+            breq = pjrpc.BatchRequest(*reqs, strict=False)
+        elif build == 'append':
+            breq = pjrpc.BatchRequest()
+            for r in reqs:
+                breq.append(r)
+        elif build == 'extend':
+            breq = pjrpc.BatchRequest(*reqs[:1])
+            breq.extend(reqs[1:])
+        else:
+            breq = pjrpc.BatchRequest(strict=False)
+            breq.extend(reqs)
         try:
             resp = st.run(lambda: b.send(breq))
         except JsonRpcError as e:
@@ -335,7 +353,11 @@ def fam_batch(w: World) -> None:
         ctx = {'notation': notation, 'id_gen': cfg['id_gen'], 'kind': 'batch', 'strict': cfg['strict'],
                'all_notifications': all(c.notification for c in calls)}
         op = f'batch.{notation}[{n}]'
-        got = _issue_batch(st, calls, notation, hand_ids)
+        build = ch.choice(BATCH_BUILDS, 'send.build') if notation == 'send' else 'ctor'
+        if notation == 'send':
+            ctx['build'] = build
+            w.probe('send.build.' + build)
+        got = _issue_batch(st, calls, notation, hand_ids, build)
         sent = st.net.sent
         if len(sent) != 1:
             if got[0] == 'raise' and isinstance(got[1], TypeError) and not sent:
